@@ -8,7 +8,7 @@ import archlib
 from core import Driver, Failure, q, ql
 
 ID = "C06"
-PROOF_MODULES = ["PyribsProofs.C06", "PyribsProofs.C06b", "PyribsProofs.Cqd"]
+PROOF_MODULES = ["PyribsProofs.C06", "PyribsProofs.C06b", "PyribsProofs.Cqd", "PyribsProofs.C14b"]
 THEOREMS = [
     "Pyribs.C06.sum_point_update",
     "Pyribs.C06.totalObj_applyWs",
@@ -26,6 +26,9 @@ THEOREMS = [
     "Pyribs.C06b.step_monotone",
     "Pyribs.C06b.obj_max_is_current_max",
     "Pyribs.C06b.nonvacuous",
+    "Pyribs.C14b.statsInv_add",
+    "Pyribs.C14b.statsInv_history",
+    "Pyribs.C14b.cells_eq_len_convention",
     "Pyribs.Cqd.score_perm_invariant",
     "Pyribs.Cqd.score_eq_formula",
     "Pyribs.Cqd.nonvacuous",
